@@ -85,6 +85,15 @@ pub fn universe(name: &str) -> Vec<Key> {
                 k
             })
             .collect(),
+        // BEFORE40 — three keys sorting before the `emptyrun` seed's leaf (first byte 0x10)
+        "BEFORE40" => (0..3u8)
+            .map(|i| {
+                let mut k = [0u8; 32];
+                k[0] = 0x10;
+                k[31] = i;
+                k
+            })
+            .collect(),
         // EXT — the extremes of the key space: all zeros, all ones, and their neighbours
         "EXT" => {
             let mut v: Vec<Key> = vec![[0u8; 32], [0xffu8; 32]];
@@ -208,6 +217,17 @@ pub fn seed_keys(name: &str) -> Vec<Key> {
             k[0] = 0x90;
             vec![k]
         }
+        // one leaf holding a 1300-byte value, a run of five EMPTY values, and another 1300-byte
+        // value (index 0 = first large, 1..5 = empties, 6 = last large)
+        "emptyrun" => {
+            let mk = |lo: u8| {
+                let mut k = [0u8; 32];
+                k[0] = 0x40;
+                k[31] = lo;
+                k
+            };
+            vec![mk(0), mk(1), mk(2), mk(3), mk(4), mk(5), mk(0x80)]
+        }
         // the on-disk part of the ROUND universe: L and X
         "round" => {
             let u = universe("ROUND");
@@ -277,6 +297,7 @@ pub fn seed_keys(name: &str) -> Vec<Key> {
 fn seed_value(name: &str, idx: usize) -> Vec<u8> {
     match name {
         "leaf" | "branch" | "wide" => util::value(1000 + idx as u64, 1300),
+        "emptyrun" => util::value(3000 + idx as u64, if idx == 0 || idx == 6 { 1300 } else { 0 }),
         "bulk" => util::value(5000 + idx as u64, 1 + idx % 40),
         "ovf" => util::value(77, 5 * 1024 * 1024),
         "pfx" => util::value(4000 + idx as u64, 1000),
